@@ -4,6 +4,7 @@ import (
 	"bufio"
 	"bytes"
 	"crypto"
+	stded "crypto/ed25519"
 	"crypto/sha256"
 	"encoding/json"
 	"fmt"
@@ -129,6 +130,21 @@ func runConc() {
 	b130 := mkBatch(r, 130, "ctx", []int{3, 64, 129})
 	b5 := mkBatch(r, 5, "ph", []int{1})
 	scalar, upoint := r.Bytes(32), r.Bytes(32)
+	// signatures under ctx "x" and ph "x" by the toolchain's implementation (independent of the library's state)
+	stdPriv := stded.NewKeyFromSeed(seed)
+	sigCtxX, _ := stdPriv.Sign(nil, digest, &stded.Options{Context: "x"})
+	sigPhX, _ := stdPriv.Sign(nil, digest, &stded.Options{Hash: crypto.SHA512, Context: "x"})
+	var bx struct {
+		keys               []ed25519.PublicKey
+		msgs, sigs, sigsPh [][]byte
+	}
+	for i := 0; i < 4; i++ {
+		k := stded.NewKeyFromSeed(r.Bytes(32))
+		m := r.Bytes(64)
+		s1, _ := k.Sign(nil, m, &stded.Options{Context: "x"})
+		s2, _ := k.Sign(nil, m, &stded.Options{Hash: crypto.SHA512, Context: "x"})
+		bx.keys, bx.msgs, bx.sigs, bx.sigsPh = append(bx.keys, ed25519.PublicKey(k[32:])), append(bx.msgs, m), append(bx.sigs, s1), append(bx.sigsPh, s2)
+	}
 	type opfn func() []byte
 	bseed := r.Int63()
 	ops := map[string]opfn{
@@ -146,6 +162,26 @@ func runConc() {
 		"Sign/ph": func() []byte {
 			s, _ := priv.Sign(nil, digest, &ed25519.Options{Hash: crypto.SHA512, Context: "x"})
 			return s
+		},
+		// operations that share PART of their arguments (same context, different variant; same key, different
+		// message): a cache keyed on part of the input would make the second call depend on the first
+		"Sign/ctx:x":       func() []byte { s, _ := priv.Sign(nil, digest, &ed25519.Options{Context: "x"}); return s },
+		"Sign/ctx:y":       func() []byte { s, _ := priv.Sign(nil, digest, &ed25519.Options{Context: "y"}); return s },
+		"Sign/pure:digest": func() []byte { return ed25519.Sign(priv, digest) },
+		"Verify/ctx:x": func() []byte {
+			return []byte{b2i(ed25519.VerifyWithOptions(pub, digest, sigCtxX, &ed25519.Options{Context: "x"}))}
+		},
+		"Verify/ph:x": func() []byte {
+			return []byte{b2i(ed25519.VerifyWithOptions(pub, digest, sigPhX, &ed25519.Options{Hash: crypto.SHA512, Context: "x"}))}
+		},
+		"Verify/ph:x-on-ctx-sig": func() []byte {
+			return []byte{b2i(ed25519.VerifyWithOptions(pub, digest, sigCtxX, &ed25519.Options{Hash: crypto.SHA512, Context: "x"}))}
+		},
+		"Batch/4-ctx:x": func() []byte {
+			return batchResult(ed25519.VerifyBatch(hx.NewRng(bseed), bx.keys, bx.msgs, bx.sigs, &ed25519.Options{Context: "x"}))
+		},
+		"Batch/4-ph:x": func() []byte {
+			return batchResult(ed25519.VerifyBatch(hx.NewRng(bseed), bx.keys, bx.msgs, bx.sigsPh, &ed25519.Options{Hash: crypto.SHA512, Context: "x"}))
 		},
 		"Batch/70-valid": func() []byte {
 			return batchResult(ed25519.VerifyBatch(hx.NewRng(bseed), b70.keys, b70.msgs, b70.sigs, b70.opts))
